@@ -34,7 +34,9 @@ impl Chan {
     pub fn crop(&self, x0: usize, y0: usize, w: usize, h: usize) -> Chan {
         let x1 = (x0 + w).min(self.w);
         let y1 = (y0 + h).min(self.h);
-        let (cw, ch) = if x0 >= x1 || y0 >= y1 { (0, 0) } else { (x1 - x0, y1 - y0) };
+        // keep the non-empty dimension of a degenerate rectangle: a zero-height channel still has a width
+        // (it counts for the LZ77 distance multiplier of its stream)
+        let (cw, ch) = (x1.saturating_sub(x0), y1.saturating_sub(y0));
         let mut c = Chan::with_shift(cw, ch, self.hshift, self.vshift);
         for y in 0..ch {
             for x in 0..cw {
